@@ -122,5 +122,14 @@ let () =
       | [] -> ()
       | "pair" :: rest -> print_endline (run_pair zlb_recv rest)
       | "disp" :: rest -> print_endline (run_disp zlb_recv rest)
+      | ["sccrq"; ns; nr] ->
+        (* dispatch.go:139-169: fresh channel (PeerRWS 16), Recv(h.Ns, h.Nr) with the result ignored, Send(SCCRP) *)
+        let e = new_endpoint Z0 Z0 Z0 Z0 (zi 16) Z0 Z0 in
+        let p = { k_body = Some (zi 1); k_sid = Z0; k_ns = zi (ios ns); k_nr = zi (ios nr) } in
+        let (e1, o1) = ep_deliver zlb_recv e p Z0 in
+        let (e2, o2) = ep_submit e1 (zi 1) Z0 Z0 in
+        let pk = (match o1 with ODeliver (_, l) -> l | _ -> []) @ (match o2 with OSubmit l -> l | _ -> []) in
+        let c = e2.e_ch in
+        Printf.printf "S%s/%d,%d,%d,%d |\n" (show_pkts pk) (iz c.c_ns) (iz c.c_nr) (iz c.c_cwnd) (iz c.c_ssth)
       | ["seqless"; a; b] -> print_endline (if seq_less (zi (ios a)) (zi (ios b)) then "1" else "0")
       | _ -> print_endline "badline") lines
